@@ -2,8 +2,9 @@
    Directives used: those of ExtrOcamlBasic only (Extract Inductive for bool, option, unit, list, prod, sumbool, ...);
    no Extract Constant.  N/Z/positive/nat stay the extracted inductives. *)
 From Coq Require Import ExtrOcamlBasic.
-From PieV Require Import Model.Dag.
+From PieV Require Import Model.Dag Model.Build Model.Dsl.
 Extraction "../model_driver/model.ml"
   Dag.empty Dag.add_node Dag.remove_node Dag.add_edge Dag.remove_edge Dag.remove_outgoing
   Dag.contains_node Dag.contains_edge Dag.contains_transitive_edge Dag.get_outgoing_edges Dag.get_incoming_edges
-  Dag.descendants_unsorted Dag.descendants Dag.topo_cmp Dag.live Dag.get_info Dag.rank_of.
+  Dag.descendants_unsorted Dag.descendants Dag.topo_cmp Dag.live Dag.get_info Dag.rank_of
+  Build.init_world Build.new_session Dsl.run_step Dsl.denote_table Build.is_tn Build.un.
